@@ -1,3 +1,4 @@
+import Arimaa.Gen.Bridge.GameState_valid_actions_no_rep
 import Arimaa.Props.C01
 import Arimaa.Lemmas.RsAgreeGen
 
@@ -12,12 +13,12 @@ of the Rust text that alters behaviour breaks an obligation of this file without
 find the input.  C01 rests on the rule-only generators only (not on the repetition filter).
 -/
 namespace Arimaa
-open Gen Spec GameState Arimaa.Gen.Rs Arimaa.Rt
+open Gen Spec GameState Arimaa.Gen.Rs Arimaa.Rt Arimaa.Gen.Bridge
 
 /-- the regenerated `valid_actions_no_rep` never panics under the play invariant and returns the model's list -/
 theorem C01_code_rule_only_list (s : GameState) (pp : PlayPhase) (h : PlayInv s pp) :
     GameState_valid_actions_no_rep s = .ok s.validActionsNoRep := by
-  rw [RsAgree.valid_actions_no_rep_direct]
+  rw [bridge_GameState_valid_actions_no_rep, RsAgree.valid_actions_no_rep_direct]
   have hp : s.validActionsNoRepPanics = false := by
     unfold validActionsNoRepPanics validActions_Panics
     rw [h.phase]
